@@ -8,6 +8,7 @@ from . import skel
 from . import numlib as nl
 from .c01_parts import spec_apply_scheme, spec_native_apply
 
+_DONE = "OK Y " + "done".encode().hex()
 TAIL_PROBES = [
     ("(define (loop n acc) (if (= n 0) acc (loop (- n 1) (+ acc 1))))\n(loop 200000 0)", "OK I 200000"),
     ("(define (loop2 n) (if (> n 0) (if (= 0 0) (if (> n -1) (loop2 (- n 1)) 'no) 'no) 'done))\n(loop2 200000)", "OK Y " + "done".encode().hex()),
@@ -21,6 +22,23 @@ TAIL_PROBES = [
     # variadic and zero-argument procedures, a builtin reached by a tail call
     ("(define (lv . xs) (if (= (car xs) 0) 'done (lv (- (car xs) 1) 7)))\n(lv 200000)", "OK Y " + "done".encode().hex()),
     ("(define (tb n) (if (> n 0) (tb (- n 1)) (+ n 5)))\n(tb 200000)", "OK I 5"),
+    # parameterless procedures (begin expands to a thunk call), tail sub-forms of the derived forms
+    # (20000 iterations: a nesting depth of 1000 already overflows the native stack)
+    ("(define n 20000)\n(define (t) (if (= n 0) 'done (begin (set! n (- n 1)) (t))))\n(t)", _DONE),
+    ("(define c 20000)\n(define (z) (set! c (- c 1)) (if (= c 0) 'done (z)))\n(z)", _DONE),
+    ("(define (lc n) (cond ((= n 0) 'done) (else (lc (- n 1)))))\n(lc 20000)", _DONE),
+    ("(define (lw n) (if (= n 0) 'done (when #t n (lw (- n 1)))))\n(lw 20000)", _DONE),
+    ("(define (lu n) (if (= n 0) 'done (unless #f n (lu (- n 1)))))\n(lu 20000)", _DONE),
+    ("(define (la n) (and #t (if (= n 0) 'done (la (- n 1)))))\n(la 20000)", _DONE),
+    ("(define (lo n) (or #f (if (= n 0) 'done (lo (- n 1)))))\n(lo 20000)", _DONE),
+    ("(define (ll n) (let ((m (- n 1))) (if (< m 0) 'done (ll m))))\n(ll 20000)", _DONE),
+    ("(define (ls n) (let* ((m (- n 1)) (k m)) (if (< k 0) 'done (ls k))))\n(ls 20000)", _DONE),
+    ("(define (lk n) (case n ((0) 'done) (else (lk (- n 1)))))\n(lk 20000)", _DONE),
+    # the operator of the tail call is itself computed: returned by a call, chosen by an if, fetched from a list, a parameter
+    ("(define (mk) loopc)\n(define (loopc n) (if (= n 0) 'done ((mk) (- n 1))))\n(loopc 20000)", _DONE),
+    ("(define (sel n) (if (= n 0) 'done ((if (> n 1) sel sel) (- n 1))))\n(sel 20000)", _DONE),
+    ("(define (d n) (if (= n 0) 'done ((car hs) (- n 1))))\n(define hs (list d))\n(d 20000)", _DONE),
+    ("(define (hp f n) (if (= n 0) 'done (f f (- n 1))))\n(hp hp 20000)", _DONE),
 ]
 
 
